@@ -220,6 +220,9 @@ DYN_PATHS = {
     'middle-key-from-T': (lambda: T[T['first']]['y'], lambda t: t[t['first']], lambda t: 'y'),
     'both-from-T': (lambda: T[T['first']][T['key']], lambda t: t[t['first']], lambda t: t['key']),
     'in-Path': (lambda: Path('a', T[T['key']]), lambda t: t['a'], lambda t: t['key']),
+    # a Spec as a plain Path part: evaluated when the path is read, so it has to be evaluated when the path is written
+    'last-Path-part-is-a-Spec': (lambda: Path('a', Spec('key')), lambda t: t['a'], lambda t: t['key']),
+    'middle-Path-part-is-a-Spec': (lambda: Path(Spec('first'), 'y'), lambda t: t[t['first']], lambda t: 'y'),
     'last-key-missing-name': (lambda: T['a'][T['nokey']], None, None),
     # a spec INSIDE a container key (a tuple key whose first member is fetched from the target), as middle and as last segment
     'middle-tuple-key-holding-T': (lambda: T['m'][(T['key'], 2)]['z'], lambda t: t['m'][(t['key'], 2)], lambda t: 'z'),
